@@ -1347,6 +1347,18 @@ func (c *coord) writeEvidence(violations int, replays []string) {
 	if len(c.infra) > 0 {
 		cov["inconclusive"] = c.infra
 	}
+	if c.prop != "C19" && sites > 0 {
+		// which library functions the workload never entered (reach of the workload,
+		// stated so a reader can see what a clean batch says nothing about)
+		var un []string
+		for i := 0; i < simrt.NSites() && i < sites; i++ {
+			if !siteHit[i] {
+				un = append(un, simrt.Sites[i].Pkg+"."+simrt.Sites[i].Func)
+			}
+		}
+		sort.Strings(un)
+		cov["failpoint_sites_unreached"] = un
+	}
 	ev := map[string]any{
 		"property_id": c.prop,
 		"tier":        map[bool]string{true: "thorough", false: "quick"}[c.tier == "thorough"],
